@@ -52,6 +52,7 @@ type opIn struct {
 	Peer uint64   `json:"peer,omitempty"`
 	From uint64   `json:"from,omitempty"`
 	Thru uint64   `json:"thru,omitempty"`
+	Tail bool   `json:"tail,omitempty"` // repair: from = follower log end + 1, through = leader log end (resolved when the step runs)
 	HW   uint64   `json:"hw,omitempty"`
 }
 
@@ -397,10 +398,13 @@ func run(in input) vh.Result {
 			}
 			resT, resJ = "RNone", "-"
 		case "repair":
-			opT = vh.App("ORepair", vh.N(op.Node), vh.N(op.Peer), vh.N(op.From), vh.N(op.Thru))
 			if !valid || op.Peer < 1 || int(op.Peer) > in.Voters || op.Peer == op.Node {
 				continue
 			}
+			if op.Tail { // the leader's tail the follower lacks: the evidence a failed exchange of the newest proposal records
+				op.From, op.Thru = r.observe(ch.NodeID(op.Peer)).LEO+1, r.observe(node).LEO
+			}
+			opT = vh.App("ORepair", vh.N(op.Node), vh.N(op.Peer), vh.N(op.From), vh.N(op.Thru))
 			ok := r.cluster.RepairFollower(node, ch.NodeID(op.Peer), op.From, op.Thru)
 			resT, resJ = vh.App("RBool", vh.B(ok)), fmt.Sprint(ok)
 			stats.count("repair", ok)
